@@ -11,6 +11,8 @@ All statements are for ALL trees (generic `Val`), all indent strings, any fuel o
 import CalmVerif.Proofs.UnparseLevel
 import CalmVerif.Proofs.UnparseBalanced
 import CalmVerif.Proofs.UnparseEnd
+import CalmVerif.Proofs.UnparseTokens
+import CalmVerif.Proofs.UnparseDepth
 import CalmVerif.Model.UnparseInst
 
 namespace CalmVerif.Props.C20
@@ -135,6 +137,191 @@ example : (match walkChunks (prettyCfg (some "\t")) exampleTree () with
     | .ok (chunks, _) => tailSafe (normalize Gen.Rules.rs_indent.layout (trailing chunks [])) &&
         tokensCleanB chunks && (tokenFrags chunks).all (fun f => f.text == "a")
     | .error _ => false) = true := by decide
+
+/-! ### T: lines not started by a newline handler are interiors of string / comment tokens -/
+
+/-- the constants of the definitions contain no line terminator; the pretty printer has no handler that
+rewrites literals and no Resolve hook -/
+theorem pretty_cfg_lineSafe (indent : Option String) : CfgOK (prettyCfg indent) lineSafe lineSafe anyStr where
+  defs := by
+    show defsOK lineSafe lineSafe Gen.Defs.definitions = true
+    decide
+  sep := by
+    show valAll lineSafe anyStr Gen.Defs.elisionSep = true
+    decide
+  mul := lineSafe_strMul
+  cont := by
+    intro h
+    have h1 : (prettyCfg indent).literal = none := by
+      show deferLookup Gen.Rules.rs_indent.deferrable .literal = none; decide
+    have h2 : (prettyCfg indent).lineComment = some .comment := by
+      show deferLookup Gen.Rules.rs_indent.deferrable .lineComment = some .comment; decide
+    have h3 : (prettyCfg indent).blockComment = some .comment := by
+      show deferLookup Gen.Rules.rs_indent.deferrable .blockComment = some .comment; decide
+    rw [h1, h2, h3] at h
+    simp at h
+  resolve := by
+    intro f hf
+    have : (prettyCfg indent).resolve = none := rfl
+    rw [this] at hf; cases hf
+
+/--
+`other_lines_are_token_interiors`.  Let every string the tree prints (attribute values outside the `@…`
+metadata) be free of line terminators unless it is spelled as a string literal or a comment
+(`valAll lineSafe`; true of parser output: identifiers, numbers, regular expressions and operators cannot
+contain one).  Then every fragment of the pretty-printed stream that contains a line terminator is either
+the `"\n"` fragment of a newline handler or a token fragment of the walk that is a string literal or a
+comment — so a line of the output either starts right after a newline-handler fragment (and is indented
+by that handler) or continues a multi-line string / comment token.
+-/
+theorem other_lines_are_token_interiors (indent : Option String) (tree : Val) (chunks : List Chunk)
+    (hw : walkChunks (prettyCfg indent) tree () = .ok (chunks, ()))
+    (ht : valAll lineSafe anyStr tree = true)
+    (hi : ∀ c ∈ (effIndent hdataGen indent).toList, isLT c = false) :
+    ∀ f ∈ (flushAll (prettyCfg indent) chunks none [] 0).1, (∃ c ∈ f.text.toList, isLT c = true) →
+      f = newlineFrag hdataGen ∨ (f ∈ tokenFrags chunks ∧ isLiteralOrComment f.text = true) := by
+  intro f hf hlt
+  have hout := walkChunks_out (pretty_cfg_lineSafe indent) tree ht () chunks () hw
+  rcases flushAll_frags (prettyCfg indent) chunks none [] 0 f hf with h | h
+  · right
+    refine ⟨h, ?_⟩
+    have hs : lineSafe f.text = true := by
+      rcases out_tokens hout f h with h1 | h1 <;> exact h1
+    simp only [lineSafe, Bool.or_eq_true] at hs
+    rcases hs with hs | hs
+    · exfalso
+      obtain ⟨c, hc, hl⟩ := hlt
+      simp only [noLT, List.all_eq_true] at hs
+      have := hs c hc
+      simp [hl] at this
+    · exact hs
+  · left
+    exact layoutFrag_LT (hdata_pretty indent hi) h hlt
+
+/-- the token fragments are exactly the walk's, in order (nothing is dropped or reordered by the layout pass) -/
+theorem tokens_preserved (indent : Option String) (chunks : List Chunk) :
+    (tokenFrags chunks).Sublist (flushAll (prettyCfg indent) chunks none [] 0).1 :=
+  flushAll_tokens_sublist _ _ _ _ _
+
+/-! ### T: level is depth -/
+
+/-- D: run symbolically over every definition (children = ordinary tokens, `Optional` bodies taken or skipped),
+the bracket automaton of Proofs/UnparseStruct.lean returns to its start state: every opening brace
+(`OpenBlock`, literal `{`) is immediately followed by `Indent` or by its closing brace, every `Dedent` is
+followed by nothing but newline markers and then its closing brace, no newline marker stands between an
+opening brace and its `Indent`, and only `Case` / `Default` open an indentation level without a brace;
+and the handler of every marker changes the Indentator level as its name says. -/
+theorem defs_bracket_structure :
+    defsStructOK Gen.Rules.rs_indent.layout caseKinds Gen.Defs.definitions = true ∧
+    markersOK Gen.Rules.rs_indent.layout = true := by decide
+
+theorem pretty_cfg_braceFree (indent : Option String) (k : String → Bool) (hk : k "Elision" = true) :
+    CfgOK (prettyCfg indent) braceFree anyStr k where
+  defs := by
+    show defsOK braceFree anyStr Gen.Defs.definitions = true
+    decide
+  sep := by
+    show valAll braceFree k Gen.Defs.elisionSep = true
+    simp only [Gen.Defs.elisionSep, valAll, attrsAll, listAll, hk, Bool.true_and, Bool.and_true, Bool.or_true]
+  mul := braceFree_strMul
+  cont := by
+    intro h
+    have h1 : (prettyCfg indent).literal = none := by
+      show deferLookup Gen.Rules.rs_indent.deferrable .literal = none; decide
+    have h2 : (prettyCfg indent).lineComment = some .comment := by
+      show deferLookup Gen.Rules.rs_indent.deferrable .lineComment = some .comment; decide
+    have h3 : (prettyCfg indent).blockComment = some .comment := by
+      show deferLookup Gen.Rules.rs_indent.deferrable .blockComment = some .comment; decide
+    rw [h1, h2, h3] at h
+    simp at h
+  resolve := by
+    intro f hf
+    have : (prettyCfg indent).resolve = none := rfl
+    rw [this] at hf; cases hf
+
+/--
+`chunk_stream_structure`.  For EVERY tree none of whose printed strings is itself `{` or `}`
+(`valAll braceFree`; identifiers, literals and operators never are), the chunk stream of the walk is
+accepted by the bracket automaton: brace tokens, `Indent` / `Dedent` and newline markers nest as
+  S ::= (token | newline | `{` `}` | `{` Indent S Dedent newline* `}` | Indent S Dedent)*.
+-/
+theorem chunk_stream_structure (indent : Option String) (tree : Val) (chunks : List Chunk)
+    (hw : walkChunks (prettyCfg indent) tree () = .ok (chunks, ()))
+    (ht : valAll braceFree anyStr tree = true) :
+    run true (syms chunks) [] = some [] := by
+  have hout := walkChunks_out (pretty_cfg_braceFree indent anyStr rfl) tree ht () chunks () hw
+  have := out_struct (ck := caseKinds) true (fun t h => h) (fun _ _ _ => rfl) defs_bracket_structure.1 hout
+  exact this [] rfl
+
+/--
+`level_is_structural_depth` (all node kinds).  At every newline marker of the chunk stream, the Indentator
+level in force (`netChunks pre` = Indent minus Dedent markers before it — the level the newline handler
+multiplies the indentation string with, see `newline_handler_indents_by_level`) equals
+  the number of brace tokens opened and not yet closed before it  (`braceDepth pre`, counted on the tokens)
+  + the number of open brace-less indentation groups (`caseOf`: bodies of `case` / `default` clauses)
+  − 1 if the next token that follows the newline markers is a closing brace.
+-/
+theorem level_is_structural_depth (indent : Option String) (tree : Val) (chunks : List Chunk)
+    (hw : walkChunks (prettyCfg indent) tree () = .ok (chunks, ()))
+    (ht : valAll braceFree anyStr tree = true)
+    (pre post : List Chunk) (ch : Chunk) (hsplit : chunks = pre ++ ch :: post) (hnl : symOfChunk ch = .nl) :
+    ∃ st, run true (syms pre) [] = some st ∧
+      netChunks pre = braceDepth pre + caseOf st - (if closerNext (syms post) then 1 else 0) := by
+  have hacc := chunk_stream_structure indent tree chunks hw ht
+  have hout := walkChunks_outAny (prettyCfg indent) tree () chunks () hw
+  subst hsplit
+  exact depth_at_newline true defs_bracket_structure.2 pre post ch hnl hacc (out_chunkOK hout)
+
+/--
+`level_is_depth_partial` — exclusion: the tree contains no `Case` / `Default` node (`notCaseKind`; decidable).
+For every such tree whose printed strings are not themselves braces, at every newline marker of the chunk
+stream the Indentator level equals the brace depth computed on the TOKENS emitted before it (`{` / `}`
+fragments and `OpenBlock` / `CloseBlock` markers, which the layout pass prints as exactly `{` / `}`), minus one
+when the line about to start begins with a closing brace.  (With `case` bodies the additional term is the
+number of open brace-less groups: `level_is_structural_depth`; that this number is the number of enclosing
+`case` / `default` bodies as a token-level machine would count them is NOT proved — see the report.)
+-/
+theorem level_is_depth_partial (indent : Option String) (tree : Val) (chunks : List Chunk)
+    (hw : walkChunks (prettyCfg indent) tree () = .ok (chunks, ()))
+    (ht : valAll braceFree notCaseKind tree = true)
+    (pre post : List Chunk) (ch : Chunk) (hsplit : chunks = pre ++ ch :: post) (hnl : symOfChunk ch = .nl) :
+    netChunks pre = braceDepth pre - (if closerNext (syms post) then 1 else 0) := by
+  have hout := walkChunks_out (pretty_cfg_braceFree indent notCaseKind (by decide)) tree ht () chunks () hw
+  have hneutral := out_struct (ck := caseKinds) false (fun t h => h)
+    (fun kind hk hc => by simp only [notCaseKind, hc] at hk; cases hk) defs_bracket_structure.1 hout
+  have hacc : run false (syms chunks) [] = some [] := hneutral [] rfl
+  subst hsplit
+  obtain ⟨st, hst, heq⟩ := depth_at_newline false defs_bracket_structure.2 pre post ch hnl hacc (out_chunkOK hout)
+  have : caseOf st = 0 := noCase_caseOf st (run_noCase _ [] st rfl hst)
+  omega
+
+/-- what a newline handler prints at level `lvl`: (the newline, unless suppressed, then) exactly the
+indentation string repeated `lvl` times — nothing when that is empty -/
+theorem newline_handler_indents_by_level (hd : HData) (is : Option String) (node : Val)
+    (before after prev : Option String) (lvl : Int) :
+    (runHandler hd is .indNewline node before after prev lvl).1 = newlineFrag hd :: generateIndents hd is lvl ∧
+    (∃ nl, (nl = [] ∨ nl = [newlineFrag hd]) ∧
+      ((runHandler hd is .indNewlineOptional node before after prev lvl).1 = nl ++ generateIndents hd is lvl ∨
+       (runHandler hd is .indNewlineOptional node before after prev lvl).1 = [])) ∧
+    (generateIndents hd is lvl = [] ∨ generateIndents hd is lvl = [indentFrag hd is lvl]) := by
+  refine ⟨rfl, ?_, ?_⟩
+  · simp only [runHandler]
+    split
+    · exact ⟨[], Or.inl rfl, Or.inr rfl⟩
+    · split
+      · exact ⟨[newlineFrag hd], Or.inr rfl, Or.inl rfl⟩
+      · exact ⟨[], Or.inl rfl, Or.inl rfl⟩
+  · rcases generateIndents_cases hd is lvl with ⟨h, _⟩ | ⟨h, _⟩
+    · exact Or.inl h
+    · exact Or.inr h
+
+set_option maxRecDepth 100000 in
+/-- non-vacuity: `{ a; }` satisfies the hypotheses; its stream has newline markers at depth 1 and 0 -/
+example : valAll braceFree notCaseKind exampleTree = true ∧
+    (match walkChunks (prettyCfg none) exampleTree () with
+     | .ok (chunks, _) => (chunks.map symOfChunk) ==
+         [.opener, .indent, .nl, .other, .other, .dedent, .nl, .closer, .nl]
+     | .error _ => false) = true := by decide
 
 /-! ### fixed finding KF-20a: an EMPTY indent string is used as given -/
 
